@@ -431,6 +431,30 @@ C18e(cx, s, nh, h1) ==
                        \cup {EKey(e[1], e[2]) : e \in Edges(cx.c)})
 
 (***************************************************************************)
+(* C19  Behaviour does not depend on the size or depth of the graph        *)
+(* b = summary of one evaluation of a large instance (harness `big`): one  *)
+(* seeded schedule through the public API, counts per disposition.         *)
+(* b1, b2 = the summaries of the same family / kind pattern / cascade      *)
+(* shape at the two smallest sizes, whose complete traces are validated    *)
+(* against every other property's clauses; larger instances must continue  *)
+(* the same affine law in the number of jobs ("evaluate like small         *)
+(* graphs"), and no instance may hit an internal limit.                    *)
+(***************************************************************************)
+C19a(b) ==
+  V(TRUE, /\ ~b.dead /\ b.bad = <<>> /\ ~b.stalled /\ b.fin /\ b.nh = "ok"
+          /\ b.ready = 0 /\ b.running = 0)
+C19Fields == {"started", "startedA", "startedO", "startedE", "succeeded", "failed", "upf",
+              "outs", "histkeys"}
+C19b(b, b1, b2) ==
+  V(b.pos >= 3 /\ b.shape \notin {"abort", "resume"} /\ ~b.dead /\ ~b1.dead /\ ~b2.dead,
+    \A f \in C19Fields :
+       (b[f] - b1[f]) * (b2.jobs - b1.jobs) = (b2[f] - b1[f]) * (b.jobs - b1.jobs))
+(* the resume of an aborted evaluation finishes the build *)
+C19c(b) == V(b.shape = "resume" /\ ~b.dead, b.failed = 0 /\ b.upf = 0)
+(* waves per call stay far below the runaway guard (1500 + 10 * jobs) *)
+C19d(b) == V(~b.dead, b.maxdepth <= 4 * b.jobs + 16)
+
+(***************************************************************************)
 (* C20  Protocol misuse is rejected without side effects                   *)
 (***************************************************************************)
 C20a(res, mis) == V(mis, res = "api")
